@@ -1533,6 +1533,43 @@ def pattern_itof_f32(context, tree, c0):
     )
 
 
+# 8 and 16 bit integers are converted by way of 32 bits:
+@isa.pattern("reg", "F32TOI8(reg)", size=20)
+@isa.pattern("reg", "F32TOU8(reg)", size=20)
+@isa.pattern("reg", "F32TOI16(reg)", size=20)
+@isa.pattern("reg", "F32TOU16(reg)", size=20)
+@isa.pattern("reg", "F64TOI8(reg)", size=20)
+@isa.pattern("reg", "F64TOU8(reg)", size=20)
+@isa.pattern("reg", "F64TOI16(reg)", size=20)
+@isa.pattern("reg", "F64TOU16(reg)", size=20)
+def pattern_ftoi8_f32(context, tree, c0):
+    return pattern_ftoi_f32(context, tree, c0)
+
+
+@isa.pattern("reg", "I8TOF32(reg)", size=28)
+@isa.pattern("reg", "I8TOF64(reg)", size=28)
+def pattern_i8tof_f32(context, tree, c0):
+    return pattern_itof_f32(context, tree, sign_extend(context, c0, 8))
+
+
+@isa.pattern("reg", "U8TOF32(reg)", size=28)
+@isa.pattern("reg", "U8TOF64(reg)", size=28)
+def pattern_u8tof_f32(context, tree, c0):
+    return pattern_itof_f32(context, tree, zero_extend(context, c0, 8))
+
+
+@isa.pattern("reg", "I16TOF32(reg)", size=28)
+@isa.pattern("reg", "I16TOF64(reg)", size=28)
+def pattern_i16tof_f32(context, tree, c0):
+    return pattern_itof_f32(context, tree, sign_extend(context, c0, 16))
+
+
+@isa.pattern("reg", "U16TOF32(reg)", size=28)
+@isa.pattern("reg", "U16TOF64(reg)", size=28)
+def pattern_u16tof_f32(context, tree, c0):
+    return pattern_itof_f32(context, tree, zero_extend(context, c0, 16))
+
+
 @isa.pattern("stm", "CJMPF32(reg, reg)", size=20)
 @isa.pattern("stm", "CJMPF64(reg, reg)", size=20)
 def pattern_cjmpf(context, tree, c0, c1):
